@@ -284,11 +284,21 @@ class Assignment(Atom):
                 continue
 
             for value in values:
+                # Use rational numbers. With floats the singular value is only
+                # found approximately (-0.2500000000000001 instead of -0.25, which
+                # the state will never be equal to), and the limit of e.g.
+                # 0.5*(x + 0.25)/(exp(0.5*(x + 0.25)) - 1) at x = -0.25 comes
+                # out as -oo instead of 1
+                value = sp.nsimplify(value, rational=True, tolerance=1e-12)
                 singularity_list.add(
                     Singularity(
                         symbol=var.symbol,
                         value=value,
-                        replacement=limit(self.expr, var.symbol, value),
+                        replacement=limit(
+                            sp.nsimplify(self.expr, rational=True),
+                            var.symbol,
+                            value,
+                        ),
                     )
                 )
         return frozenset(singularity_list)
